@@ -34,7 +34,7 @@ RULE = (
     "(ValueError, TypeError, KeyError, StopIteration, KeyboardInterrupt, SystemExit, GeneratorExit, an ExceptionGroup, a DLTypeError of an inner check, ...) under every kind of return hint: the caller catches that very object. "
     "non-trivial = distinct case with at least one annotated parameter/field"
 )
-RULE += " Also: bodies returning one-shot iterators / a lazily inspected object; field names the decorators use internally."
+RULE += " Also: bodies returning one-shot iterators / a lazily inspected object; field names the decorators use internally. Annotated *args / **kwargs next to a dltype parameter; annotated fields with a tensor default left out by the caller."
 TRUSTED_EXTRA = ["observed-only (not proved): functools.wraps metadata, dataclass/NamedTuple equality, repr, immutability, pickling"]
 
 MOD = types.ModuleType("verif_c16")
